@@ -104,12 +104,15 @@ def run(ctx):
             ops += [('SEQ', (PUSH(BOOL, T_), PUSH(t, k), ('UPDATEK',))), ('SEQ', (PUSH(BOOL, F_), PUSH(t, k), ('UPDATEK',))),
                     ('SEQ', (DUP(1), PUSH(t, k), ('MEM',), ('SWAP',)))]
         ops += [('SEQ', (DUP(1), ('SIZE',), ('SWAP',))), ('SEQ', (DUP(1), ('NIL', t), ('SWAP',), ('ITER', (('CONS',),)), ('SWAP',)))]
+        # a copy is a value of its own: DUP, update the copy, keep both (the original stays on top and the history goes on with it)
+        ops += [('SEQ', (DUP(1), PUSH(BOOL, T_), PUSH(t, ks[-1]), ('UPDATEK',), ('SWAP',))), ('SEQ', (DUP(1), PUSH(BOOL, F_), PUSH(t, ks[0]), ('UPDATEK',), ('SWAP',)))]
         fams['set%d' % idx] = dict(depth=depth, maxstack=3, inits=[(S(SET(t), ('set', ())),)], alphabet=ops)
         mops = []
         for k in (ks[:2] if ctx.quick else ks):
             mops += [('SEQ', (PUSH(OPT(STR), some(vals[0])), PUSH(t, k), ('UPDATEK',))), ('SEQ', (PUSH(OPT(STR), none), PUSH(t, k), ('UPDATEK',))),
                      ('SEQ', (DUP(1), PUSH(t, k), ('GETK',), ('SWAP',))), ('SEQ', (DUP(1), PUSH(t, k), ('MEM',), ('SWAP',))),
                      ('SEQ', (PUSH(OPT(STR), some(vals[1])), PUSH(t, k), ('GET_AND_UPDATE',), ('SWAP',)))]
+        mops += [('SEQ', (DUP(1), PUSH(OPT(STR), some(vals[1])), PUSH(t, ks[1]), ('UPDATEK',), ('SWAP',))), ('SEQ', (DUP(1), PUSH(OPT(STR), none), PUSH(t, ks[0]), ('UPDATEK',), ('SWAP',)))]
         mops += [('SEQ', (DUP(1), ('SIZE',), ('SWAP',))), ('MAP', (('CDR',), ('SIZE',))), ('MAP', (('CAR',),)),
                  ('SEQ', (DUP(1), ('NIL', P(t, STR)), ('SWAP',), ('ITER', (('CONS',),)), ('SWAP',)))]
         fams['map%d' % idx] = dict(depth=depth, maxstack=3, inits=[(S(MAP(t, STR), ('map', ())),)], alphabet=mops)
